@@ -23,11 +23,12 @@ def setup(c):
         "stage/release/cleanup/commit/rollback (model output == implementation output, incl. the (generation, mutations) each "
         "flush call receives and the regions that get a ResolveLock), property ops chk-read/chk-bget (read = latest write at any "
         "tier), chk-flush (each mutation handed to exactly one flush, generations 1,2,3…, at most one flush function running), "
-        "flush/flushwait/commit (a failed flush of any kind — plain error, or an ErrKeyExist chain for a key inside/outside the flushed batch — is reported: FAIL flush-error-swallowed / lost-flush-error otherwise; the error handed back is the translation handleAlreadyExistErr makes), chk-covered (every flushed key reaches the primary's outcome). "
+        "flush/flushwait/commit (a failed flush of any kind — plain error, or an ErrKeyExist chain for a key inside/outside the flushed batch — is reported: FAIL flush-error-swallowed / lost-flush-error otherwise; the error handed back is the translation handleAlreadyExistErr makes), chk-range (every key sent in a Flush request lies in [pipelinedStart,pipelinedEnd) as the real committer holds them, read through an add-only export), chk-covered (after commit / rollback / the cleanup of a failed commit every flushed key reaches the primary's outcome: it is the committed primary or its region got the ResolveLock, i.e. no lock of the transaction is left). "
         "bare world: real PipelinedMemDB + scripted flush function + harness remote buffer; txn world: real pipelined KVTxn on "
         "mocktikv with Flush/BufferBatchGet/Commit/Broadcast answered by the harness (mocktikv lacks these RPCs), real flush "
         "callback, Commit/Rollback, resolveFlushedLocks, RunOnRange, resolve handler. Thresholds through the existing failpoints; "
         "Mem() of the mutable buffer is an observed input; flush completion is scripted relative to the next writes; "
+        "txnrange cases: 2-4 flushes whose smallest keys ascend / descend / interleave, region borders between them, ended by commit / rollback / failed commit; "
         "traces = cases")
     c.assumptions = [
         "Mem() of the mutable MemDB (arena capacities) is not modelled: the value observed on the implementation is an input of the model's needFlush",
@@ -54,10 +55,27 @@ def triage(c, ops_file, impl_file, model_file, hbin, exe, budget_s):
                (impl[i] != model[i] or impl[i].startswith("FAIL") or impl[i].startswith("panic"))]
         if not idx:
             continue
-        f = idx[0]
-        verdict = " ".join(impl[f].split()[:2]) if impl[f].startswith(("FAIL", "panic")) else impl[f].split()[0]
-        sig = (ops[a].split()[-1] if ops[a].startswith("#") else "", ops[f].split()[0], verdict, impl[f] == model[f])
-        groups.setdefault(sig, []).append([o for o in ops[a:f + 1] if not o.startswith("#")])
+        def vd(i):
+            return " ".join(impl[i].split()[:2]) if impl[i].startswith(("FAIL", "panic")) else impl[i].split()[0]
+        kind = ops[a].split()[-1] if ops[a].startswith("#") else ""
+        # a property-op failure anywhere in the case is the concrete failing input (a mere correspondence mismatch earlier
+        # in the case must not hide it); every distinct failing verdict of the case gets its own entry: the case up to
+        # its first occurrence, without the property ops that fail with another verdict before it
+        pf = [i for i in idx if impl[i].startswith(("FAIL", "panic"))]
+        if pf:
+            seen = set()
+            for f in pf:
+                if vd(f) in seen:
+                    continue
+                seen.add(vd(f))
+                other = set(i for i in pf if i < f and vd(i) != vd(f))
+                sig = (kind, ops[f].split()[0], vd(f), impl[f] == model[f])
+                groups.setdefault(sig, []).append(
+                    [ops[i] for i in range(a, f + 1) if not ops[i].startswith("#") and i not in other])
+        else:
+            f = idx[0]
+            sig = (kind, ops[f].split()[0], vd(f), impl[f] == model[f])
+            groups.setdefault(sig, []).append([o for o in ops[a:f + 1] if not o.startswith("#")])
     c.cov["failing_cases"] = sum(len(v) for v in groups.values())
     c.cov["failing_signatures"] = sorted(" / ".join(map(str, k)) for k in groups)
     for v in groups.values():
@@ -74,11 +92,13 @@ def triage(c, ops_file, impl_file, model_file, hbin, exe, budget_s):
                 continue
             shrunk_n += 1
             case = v[rnd]
+            # shrink towards the property failure, not towards any mismatch
+            only_prop = sig[2].startswith(("FAIL", "panic"))
             # pre-pass: reads that do not touch the state (get / chk-read) are dropped at once when the case still fails
             slim = [o for o in case[:-1] if o.split()[0] not in ("get", "chk-read", "chk-flush")] + case[-1:]
-            if len(slim) < len(case) and c._fails(slim, hbin, exe, None):
+            if len(slim) < len(case) and c._fails(slim, hbin, exe, None, only_prop):
                 case = slim
-            shrunk = c.shrink(case, hbin, exe, None, budget=120)
+            shrunk = c.shrink(case, hbin, exe, None, budget=120, only_prop=only_prop)
             # ddmin stops at 1-minimal cases; matching stage/release (or stage/cleanup) pairs only go away together
             tries = 0
             improved = True
@@ -88,7 +108,7 @@ def triage(c, ops_file, impl_file, model_file, hbin, exe, budget_s):
                     for j in range(i + 1, len(shrunk) - 1):
                         cand = shrunk[:i] + shrunk[i + 1:j] + shrunk[j + 1:]
                         tries += 1
-                        if c._fails(cand, hbin, exe, None):
+                        if c._fails(cand, hbin, exe, None, only_prop):
                             shrunk, improved = cand, True
                             break
                         if tries >= 150:
